@@ -91,8 +91,34 @@ pub fn roundtrip(start: usize, entries: &[Vec<u8>]) -> Result<usize, String> {
 /// Like `roundtrip`, but the log begins with the First frame of an entry whose other frames never came (what a torn
 /// write leaves behind): everything written after it must still be read back identical.
 pub fn roundtrip_after(dangling_first: Option<usize>, start: usize, entries: &[Vec<u8>]) -> Result<usize, String> {
+    roundtrip_before(dangling_first.map_or(Before::Nothing, Before::DanglingFirst), start, entries)
+}
+
+/// What the log holds before the first entry that must round-trip.
+#[derive(Clone, Copy, Debug, PartialEq, Eq)]
+pub enum Before {
+    Nothing,
+    /// The First frame of an entry whose other frames never came (a torn write).
+    DanglingFirst(usize),
+    /// The tail of an entry whose head is gone (what a WAL file begins with when an entry straddled two files and the
+    /// first one was garbage-collected): a Last frame of `n % 100_000` bytes, preceded by a whole-block Middle frame
+    /// when `n >= 100_000`. It must be dropped; nothing of it may be delivered.
+    OrphanTail(usize),
+}
+
+pub fn roundtrip_before(before: Before, start: usize, entries: &[Vec<u8>]) -> Result<usize, String> {
     let result = guarded(|| -> Result<usize, String> {
         let mut initial = VecWriter::default();
+        let dangling_first = if let Before::DanglingFirst(len) = before { Some(len) } else { None };
+        if let Before::OrphanTail(code) = before {
+            let tail = code % 100_000;
+            let middles = if code >= 100_000 { 1 } else { 0 };
+            let mut torn = verif_api::record_writer(VecWriter::default());
+            let long_entry = crate::util::fill(0x7A11 ^ code as u64, (1 + middles) * (BLOCK - FRAME_HEADER) + tail.max(1), 0);
+            torn.write_record(Raw(&long_entry)).map_err(|err| format!("write entry for the orphan tail: {err}"))?;
+            initial.bytes.extend_from_slice(&verif_api::underlying(&torn).bytes[BLOCK..]);
+        }
+        let orphan_len = initial.bytes.len();
         if let Some(len) = dangling_first {
             // written by the library's own writer (so that the frame is valid whatever the frame format is): an entry
             // longer than one block, of which only the first block — its First frame — is kept
@@ -101,17 +127,17 @@ pub fn roundtrip_after(dangling_first: Option<usize>, start: usize, entries: &[V
             torn.write_record(Raw(&long_entry)).map_err(|err| format!("write torn entry: {err}"))?;
             initial.bytes.extend_from_slice(&verif_api::underlying(&torn).bytes[..BLOCK]);
         }
-        // the dangling frame fills block 0 entirely: in-block offsets are unchanged
-        let dangling_len = 0usize;
+        // the dangling First frame fills block 0 entirely: in-block offsets are unchanged; an orphan tail ends inside a block
+        let dangling_len = orphan_len % BLOCK;
         let mut writer = verif_api::record_writer(initial);
         let mut expected: Vec<&[u8]> = Vec::new();
         let filler: Vec<u8>;
         if dangling_len > 0 {
             // the filler is sized so that the cursor still ends at in-block offset `start`
-            if start < dangling_len + FRAME_HEADER {
+            if start % BLOCK < dangling_len + FRAME_HEADER {
                 return Err(format!("engine: in-block offset {start} is not reachable after a dangling frame of {dangling_len} bytes"));
             }
-            filler = crate::util::fill(start as u64, start - dangling_len - FRAME_HEADER, 0);
+            filler = crate::util::fill(start as u64, start % BLOCK - dangling_len - FRAME_HEADER, 0);
             writer.write_record(Raw(&filler)).map_err(|err| format!("write filler: {err}"))?;
             expected.push(&filler);
             let cursor = verif_api::underlying(&writer).bytes.len();
@@ -166,6 +192,36 @@ pub fn roundtrip_after(dangling_first: Option<usize>, start: usize, entries: &[V
         Ok(result) => result,
         Err(panic) => Err(format!("panic: {panic}")),
     }
+}
+
+const CRAFTED_TARGETS: [u32; 8] = [0, 1, 0x0100_0000, 0x0000_00FF, 0xFF00_0000, 0xFFFF_FFFF, 0x0000_FFFF, 0x0001_0000];
+
+/// An entry of `body + 4` bytes whose single Full frame carries the checksum `target` (forged 4-byte suffix), followed by
+/// three more entries (one of them crafted too). `Ok(false)`: the writer did not lay the entry out as one frame carrying
+/// that checksum (a different frame format): nothing to check.
+fn crafted_crc_cell(start: usize, target: u32, body: usize) -> Result<bool, String> {
+    let craft = |seed: u64, body: usize| -> Result<Vec<u8>, String> {
+        let mut entry = crate::util::fill(seed, body, 0);
+        let mut crc_input: Vec<u8> = vec![1u8]; // frame type Full
+        crc_input.extend_from_slice(&entry);
+        let suffix = crate::util::forge_crc_suffix(&crc_input, target).ok_or_else(|| "engine: cannot forge a CRC suffix".to_string())?;
+        entry.extend_from_slice(&suffix);
+        Ok(entry)
+    };
+    let first = craft(0xC4C ^ start as u64, body)?;
+    // self-check against the library's own writer
+    let laid_out = guarded(|| {
+        let mut probe = verif_api::record_writer(VecWriter::default());
+        probe.write_record(Raw(&first)).is_ok() && {
+            let bytes = &verif_api::underlying(&probe).bytes;
+            bytes.len() == FRAME_HEADER + first.len() && bytes[..4] == target.to_le_bytes()
+        }
+    });
+    if laid_out != Ok(true) {
+        return Ok(false);
+    }
+    let entries = vec![first, crate::util::fill(33, 33, 0), craft(0xC4D, 10)?, crate::util::fill(5, 5, 0)];
+    roundtrip(start, &entries).map(|_| true)
 }
 
 fn gen_cfg(tier: Tier) -> GenCfg {
@@ -332,9 +388,59 @@ impl Property for C07 {
                             }
                             env.class("grid-cell-after-dangling-first-frame");
                         }
+                        // same cell in a log that begins with the orphan tail of an entry whose head is gone
+                        for code in [9usize, 100_003] {
+                            if *start % BLOCK < code % 100_000 + 2 * FRAME_HEADER {
+                                continue;
+                            }
+                            env.evals(1);
+                            if let Err(msg) = roundtrip_before(Before::OrphanTail(code), *start, &entries) {
+                                if msg.starts_with("engine:") {
+                                    return Err(CaseError::Engine(msg));
+                                }
+                                let lens: Vec<usize> = entries.iter().map(|entry| entry.len()).collect();
+                                return Err(CaseError::Violation(Box::new(Failure {
+                                    msg: format!("in-memory round-trip in a log that begins with the orphan tail of an entry whose head is gone ({}Last frame of {} bytes), cursor at in-block offset {start}, entry lengths {lens:?}: {msg}", if code >= 100_000 { "Middle frame + " } else { "" }, code % 100_000),
+                                    signature: "roundtrip-mismatch-after-orphan-tail".to_string(),
+                                    policy: Policy::DEFAULT,
+                                    ops: Vec::new(),
+                                    extra: json!({"grid": {"start": start, "lengths": lens, "orphan_tail": code}}),
+                                })));
+                            }
+                            env.class("grid-cell-after-orphan-tail");
+                        }
                     }
                     if follower == 3 && *length > 30_000 {
                         env.sample(|| json!({"route": "in-memory grid", "start_offset_in_block": start, "entry_lengths": entries.iter().map(|entry| entry.len()).collect::<Vec<_>>()}));
+                    }
+                }
+            }
+        }
+        // content-dependent cells: entries crafted so that the checksum field of their (single, Full) frame has a chosen value
+        for target in CRAFTED_TARGETS {
+            for start in [0usize, 20, 5_000, BLOCK - 100] {
+                for body in [0usize, 13, 60] {
+                    cell += 1;
+                    if cell % shards != shard {
+                        continue;
+                    }
+                    env.evals(1);
+                    match crafted_crc_cell(start, target, body) {
+                        Ok(true) => {
+                            env.class("grid-cell-crafted-checksum");
+                            env.nontrivial(hash64(&(0xC4Cu32, start, target, body)));
+                        }
+                        Ok(false) => env.class("grid-cell-crafted-checksum:layout-skipped"),
+                        Err(msg) if msg.starts_with("engine:") => return Err(CaseError::Engine(msg)),
+                        Err(msg) => {
+                            return Err(CaseError::Violation(Box::new(Failure {
+                                msg: format!("in-memory round-trip, cursor at in-block offset {start}, an entry of {} bytes crafted so that its frame header carries the checksum {target:#010x}, then 3 more entries: {msg}", body + 4),
+                                signature: "roundtrip-mismatch-crafted-checksum".to_string(),
+                                policy: Policy::DEFAULT,
+                                ops: Vec::new(),
+                                extra: json!({"crafted_crc": {"start": start, "target": target, "body": body}}),
+                            })));
+                        }
                     }
                 }
             }
@@ -349,7 +455,13 @@ impl Property for C07 {
             let lens: Vec<usize> = grid.get("lengths").and_then(|value| value.as_array()).map(|list| list.iter().map(|item| item.as_u64().unwrap_or(0) as usize).collect()).unwrap_or_default();
             let entries: Vec<Vec<u8>> = lens.iter().enumerate().map(|(idx, len)| crate::util::fill(idx as u64 + 1, *len, 0)).collect();
             let dangling = grid.get("dangling").and_then(|value| value.as_u64()).map(|value| value as usize);
-            return match roundtrip_after(dangling, start, &entries) {
+            let orphan = grid.get("orphan_tail").and_then(|value| value.as_u64()).map(|value| value as usize);
+            let before = match (dangling, orphan) {
+                (_, Some(code)) => Before::OrphanTail(code),
+                (Some(len), None) => Before::DanglingFirst(len),
+                (None, None) => Before::Nothing,
+            };
+            return match roundtrip_before(before, start, &entries) {
                 Ok(_) => Ok(()),
                 Err(msg) => Err(CaseError::Violation(Box::new(Failure {
                     msg: format!("in-memory round-trip, cursor at in-block offset {start}, entry lengths {lens:?}: {msg}"),
@@ -357,6 +469,21 @@ impl Property for C07 {
                     policy: Policy::DEFAULT,
                     ops: Vec::new(),
                     extra: json!({"grid": {"start": start, "lengths": lens}}),
+                }))),
+            };
+        }
+        if let Some(crafted) = case.extra.as_ref().and_then(|extra| extra.get("crafted_crc")) {
+            let field = |name: &str| crafted.get(name).and_then(|value| value.as_u64()).unwrap_or(0);
+            let (start, target, body) = (field("start") as usize, field("target") as u32, field("body") as usize);
+            return match crafted_crc_cell(start, target, body) {
+                Ok(_) => Ok(()),
+                Err(msg) if msg.starts_with("engine:") => Err(CaseError::Engine(msg)),
+                Err(msg) => Err(CaseError::Violation(Box::new(Failure {
+                    msg: format!("in-memory round-trip, cursor at in-block offset {start}, an entry crafted so that its frame header carries the checksum {target:#010x}: {msg}"),
+                    signature: "roundtrip-mismatch-crafted-checksum".to_string(),
+                    policy: Policy::DEFAULT,
+                    ops: Vec::new(),
+                    extra: json!({"crafted_crc": {"start": start, "target": target, "body": body}}),
                 }))),
             };
         }
